@@ -180,7 +180,8 @@ def _sign_extending_casts(m):
             a = int_type(x.cty)
             s0 = strip(x)
             b = int_type(s0.cty) if s0 is not None else None
-            if a and b and b[1] and not a[1] and a[0] > b[0] and s0.k in ('mem', 'idx', 'ref') and s0.refk != 'EnumConstantDecl':
+            # stored data only (fields, array elements): a signed local that is widened is usually a small non-negative counter
+            if a and b and b[1] and not a[1] and a[0] > b[0] and s0.k in ('mem', 'idx'):
                 key = (x.line, show(s0))
                 if key in seen:
                     continue
